@@ -313,6 +313,21 @@ class BytesAlg:
                 alg = args[0] if args else kwargs.get("algorithm")
                 mode = args[1] if len(args) > 1 else kwargs.get("mode")
                 return self._new(it, "cipher", alg=alg, mode=mode)
+            if leaf == "HKDF" and ("length" in kwargs or "info" in kwargs or len(args) >= 2):
+                # cryptography's RFC 5869 HKDF(algorithm, length, salt, info[, backend]): with SHA-256 and the default
+                # (all-zero) salt it is the very stream python-axolotl's HKDFv3 produces (law listed in the header)
+                a_ = kwargs.get("algorithm", args[0] if args else None)
+                n_ = kwargs.get("length", args[1] if len(args) > 1 else None)
+                salt_ = kwargs.get("salt", args[2] if len(args) > 2 else C_NONE)
+                info_ = kwargs.get("info", args[3] if len(args) > 3 else C_NONE)
+                n_ = it.concrete(n_) if n_ is not None and n_[0] == "atom" else n_
+                sa_ = self.atoms_of(salt_) if salt_ is not None and salt_ != C_NONE else []
+                zero_salt = sa_ is not None and all(x[0] == "const" and not any(x[1]) for x in self.normalise(sa_))
+                sha256 = a_ is not None and "sha256" in show(a_).lower()
+                if n_ is not None and n_[0] == "c" and isinstance(n_[1], int) and zero_salt and sha256:
+                    return self._new(it, "hkdf_rfc", length=n_[1], info=info_ if info_ is not None else C_NONE)
+                self.notes.append("HKDF with parameters outside the model (algorithm %s, salt %s)" % (show(a_)[:30] if a_ is not None else None, show(salt_)[:30] if salt_ is not None else None))
+                return None
             if leaf in ("HKDFv3", "HKDFv2", "HKDF"):
                 return self._new(it, "hkdf", version=leaf)
             return None
@@ -509,6 +524,12 @@ class BytesAlg:
             self.events.append(("derive", nm, n[1]))
             self.base_len[nm] = max(self.base_len.get(nm, 0), n[1])
             return self.bt(it, [("sym", nm, 0, n[1])])
+        if k == "hkdf_rfc" and name == "derive" and len(args) == 1:
+            info = m["info"]
+            nm = ("HKDF", "HKDFv3", self.canon(args[0]), self.canon(info) if info != C_NONE else ())
+            self.events.append(("derive", nm, m["length"]))
+            self.base_len[nm] = max(self.base_len.get(nm, 0), m["length"])
+            return self.bt(it, [("sym", nm, 0, m["length"])])
         if k == "cipher" and name in ("encryptor", "decryptor"):
             alg, mode = m["alg"], m["mode"]
             am = self.meta.get(alg[1].id) if self.kind(alg) == "alg" else None
